@@ -6,7 +6,7 @@ from .common import bump
 ID = "C16"
 AREA = "c16"
 LEAN_PROPS = "Litep2pVerif.Props.C16"
-THEOREMS = ["terminal_once", "terminal_accounted", "terminal_once_at_quiescence_partial", "quorum_clamp_rule",
+THEOREMS = ["terminal_once", "terminal_accounted", "terminal_once_at_quiescence_partial", "put_quorum_sound", "quorum_clamp_rule",
             "settle_covers_timeouts"]
 CONSTS = ["KAD_READ_TIMEOUT_SECS", "KAD_WRITE_TIMEOUT_SECS"]
 _EXE = "src/protocol/libp2p/kademlia/executor.rs"
@@ -17,9 +17,12 @@ CONST_TABLE = [
 MANIFEST = {
     "text": "Lean 4 theorems about an executable model of the Kademlia coordinator (pending dials, pending substreams, "
             "per-peer pending actions, executor futures, the PUT_VALUE/ADD_PROVIDER tracker with its quorum clamping, and the "
-            "iterative lookups abstracted to their pending sets): waiting_owned (every peer a live query waits for is owned "
-            "by an outstanding dial, substream open or executor future, for every event schedule), terminal_once, "
-            "terminal_once_at_quiescence, put_quorum_sound; plus a trace-validated correspondence run of the real Kademlia "
+            "iterative lookups abstracted to their pending sets), for every schedule of commands, engine actions, transport "
+            "events and executor results: terminal_once, terminal_accounted (live xor exactly one terminal event), "
+            "put_quorum_sound, quorum_clamp_rule; terminal_once_at_quiescence_partial takes the ownership invariant "
+            "(every peer a live query waits for is owned by an outstanding dial, substream open or executor future) as a "
+            "hypothesis - that invariant is an executable predicate re-checked on every state of every validated trace, "
+            "not an unbounded theorem; plus a trace-validated correspondence run of the real Kademlia "
             "event loop (paused clock, in-memory substreams, scripted transport events and remote peers) against the model, "
             "and a property-level oracle (per query exactly one terminal event once the environment has discharged every "
             "obligation; success of a put/announce only with enough peers that received the data).",
